@@ -26,6 +26,7 @@ import (
 	"strconv"
 	"strings"
 	"sync"
+	"sync/atomic"
 	"time"
 )
 
@@ -376,7 +377,7 @@ func runIsolated(cfg isoConfig, cases []caseID) *isoOutcome {
 				cmd := exec.Command(os.Args[0], "-test.run=^"+cfg.workerTest+"$", "-test.timeout=0", "-test.count=1")
 				cmd.Env = append(os.Environ(), envCases+"="+encodeCases(chunk), envOut+"="+resPath, "GOTRACEBACK=all")
 				cmd.Stdout, cmd.Stderr = logF, logF
-				timedOut := false
+				var timedOut atomic.Bool
 				err := cmd.Start()
 				if err == nil {
 					done := make(chan struct{})
@@ -384,7 +385,7 @@ func runIsolated(cfg isoConfig, cases []caseID) *isoOutcome {
 						select {
 						case <-done:
 						case <-time.After(cfg.watchdog):
-							timedOut = true
+							timedOut.Store(true)
 							cmd.Process.Kill()
 						}
 					}()
@@ -423,7 +424,7 @@ func runIsolated(cfg isoConfig, cases []caseID) *isoOutcome {
 				}
 				isCrash := strings.Contains(text, "\npanic: ") || strings.HasPrefix(text, "panic: ") || strings.Contains(text, "fatal error: ")
 				switch {
-				case timedOut:
+				case timedOut.Load():
 					mu.Lock()
 					what := "before its first case"
 					if crashed != nil {
